@@ -474,4 +474,87 @@ example : UnitC (⟨3/5, 4/5, ⟨2, 1/2⟩⟩ : Iso2 ℚ) ∧ UnitC (⟨3/5, -4/
     (fun m : Manifold2 ℚ => (m.n1.x, m.n1.y, m.n2.x, m.n2.y)) exBoxB = (-3/5, 4/5, 1, 0) := by
   refine ⟨by norm_num [UnitC], by norm_num [UnitC], by norm_num [fmax, Num.ofRat], ?_, ?_, ?_, ?_, ?_, ?_⟩ <;> decide +kernel
 
+/-! ## 2-D `contact_manifold_cuboid_triangle`: the triangle's support point, and the contact assembly for a given normal -/
+
+private theorem convex_le (w u v d1 d2 d3 M : K) (hw : 0 ≤ w) (hu : 0 ≤ u) (hv : 0 ≤ v) (hsum : w + u + v = 1)
+    (h1 : d1 ≤ M) (h2 : d2 ≤ M) (h3 : d3 ≤ M) : w * d1 + u * d2 + v * d3 ≤ M := by
+  have e : M = w * M + u * M + v * M := by rw [← add_mul, ← add_mul, hsum, one_mul]
+  nlinarith [mul_nonneg hw (sub_nonneg.mpr h1), mul_nonneg hu (sub_nonneg.mpr h2), mul_nonneg hv (sub_nonneg.mpr h3)]
+
+/-- **`Triangle::local_support_point`** returns a vertex of the triangle whose scalar product with `dir` is maximal over the
+whole triangle. -/
+theorem triSupportPoint2_spec (a b c dir : V2 K) :
+    letI := fieldNum K sq
+    (triSupportPoint2 a b c dir = a ∨ triSupportPoint2 a b c dir = b ∨ triSupportPoint2 a b c dir = c) ∧
+    ∀ p, (Triangle2.mk a b c).Mem p → p.dot dir ≤ (triSupportPoint2 a b c dir).dot dir := by
+  refine ⟨?_, ?_⟩
+  · simp only [triSupportPoint2]; split_ifs <;> simp
+  · rintro p ⟨u, v, hu, hv, huv, rfl⟩
+    have hw : 0 ≤ 1 - u - v := by linarith
+    have key : ∀ M : K, a.x * dir.x + a.y * dir.y ≤ M → b.x * dir.x + b.y * dir.y ≤ M → c.x * dir.x + c.y * dir.y ≤ M →
+        (a.x + (b.x - a.x) * u + (c.x - a.x) * v) * dir.x + (a.y + (b.y - a.y) * u + (c.y - a.y) * v) * dir.y ≤ M := by
+      intro M h1 h2 h3
+      have := convex_le (1 - u - v) u v _ _ _ M hw hu hv (by ring) h1 h2 h3
+      linarith
+    simp only [triSupportPoint2]
+    split_ifs with h1 h2 h3 <;> simp only [V2.dot, V2.add, V2.sub, V2.smul] at * <;> apply key <;> linarith
+
+private theorem tri_edge_mem (a b c p : V2 K) :
+    letI := fieldNum K sq
+    ((Segment2.mk a b).Mem p → (Triangle2.mk a b c).Mem p) ∧ ((Segment2.mk b c).Mem p → (Triangle2.mk a b c).Mem p) ∧
+    ((Segment2.mk c a).Mem p → (Triangle2.mk a b c).Mem p) := by
+  refine ⟨?_, ?_, ?_⟩
+  · rintro ⟨t, h0, h1, rfl⟩
+    exact ⟨t, 0, h0, le_rfl, by linarith, by apply V2.ext' <;> simp only [V2.add, V2.sub, V2.smul] <;> ring⟩
+  · rintro ⟨t, h0, h1, rfl⟩
+    exact ⟨1 - t, t, by linarith, h0, by linarith, by apply V2.ext' <;> simp only [V2.add, V2.sub, V2.smul] <;> ring⟩
+  · rintro ⟨t, h0, h1, rfl⟩
+    exact ⟨0, 1 - t, le_rfl, by linarith, by linarith, by apply V2.ext' <;> simp only [V2.add, V2.sub, V2.smul] <;> ring⟩
+
+/-- the 2-D `Triangle::support_face` is one of the three edges, for every direction -/
+private theorem triSupportFace2_cases (a b c dir : V2 K) :
+    letI := fieldNum K sq
+    ∃ x y, triSupportFace2 a b c dir = [x, y] ∧ ∀ p, (Segment2.mk x y).Mem p → (Triangle2.mk a b c).Mem p := by
+  obtain ⟨e1, e2, e3⟩ : True ∧ True ∧ True := ⟨trivial, trivial, trivial⟩
+  simp only [triSupportFace2]
+  split_ifs
+  · exact ⟨a, b, rfl, fun p => (tri_edge_mem sq a b c p).1⟩
+  · exact ⟨b, c, rfl, fun p => (tri_edge_mem sq a b c p).2.1⟩
+  · exact ⟨c, a, rfl, fun p => (tri_edge_mem sq a b c p).2.2⟩
+
+/-- **The contact assembly of `contact_manifold_cuboid_triangle` (2-D, cuboid first, no normal constraints)** for ANY unit
+reference normal: unit normals with `pos12·n2 = −n1` exactly, no contact or two, each with the `dist` identity, `local_p1` in the
+cuboid, `local_p2` in the triangle, witnesses facing each other along the normal. -/
+theorem cuboidTriangleAssemble2_spec (pos12 : Iso2 K) (hq : UnitC pos12) (he1 a b c n1 : V2 K)
+    (h1x : 0 ≤ he1.x) (h1y : 0 ≤ he1.y) (hn : letI := fieldNum K sq; n1.dot n1 = 1) (m : Manifold2 K) :
+    letI := fieldNum K sq
+    letI := fieldCopysign K
+    let m' := cuboidTriangleAssemble2 pos12 pos12.inverse he1 a b c n1 false m
+    GoodManifold2 sq pos12 (Cuboid2.mk he1).Mem (Triangle2.mk a b c).Mem m' ∧
+    (m'.points.length = 0 ∨ m'.points.length = 2) ∧
+    ∀ k ∈ m'.points, ((pos12.act k.p2).sub k.p1).dot ⟨-n1.y, n1.x⟩ = 0 := by
+  intro m'
+  obtain ⟨a1, b1, e1, ha1, hb1⟩ := cuboidSupportFace2_mem sq he1 n1 h1x h1y
+  obtain ⟨x, y, e2, hxy⟩ := triSupportFace2_cases sq a b c
+    (@Iso2.rot K (fieldNum K sq) (@Iso2.inverse K (fieldNum K sq) pos12) (@V2.neg K (fieldNum K sq) n1))
+  have em : m' = ⟨@faceFace2 K (fieldNum K sq) pos12 a1 b1 n1 x y false, n1,
+      @Iso2.rot K (fieldNum K sq) (@Iso2.inverse K (fieldNum K sq) pos12) (@V2.neg K (fieldNum K sq) n1)⟩ := by
+    simp only [m', cuboidTriangleAssemble2]
+    rw [e1, e2]
+    simp [polyContacts2]
+  rw [em]
+  obtain ⟨hlen, hc⟩ := faceFace2_spec sq pos12 hq a1 b1 n1 x y
+  refine ⟨⟨hn, ?_, ?_, ?_⟩, hlen, ?_⟩
+  · unfold UnitC at hq
+    simp only [Iso2.inverse, Iso2.rot, V2.neg, V2.dot] at hn ⊢
+    linear_combination (n1.x * n1.x + n1.y * n1.y) * hq + hn
+  · show @Iso2.rot K (fieldNum K sq) pos12 (@Iso2.rot K (fieldNum K sq) (@Iso2.inverse K (fieldNum K sq) pos12)
+      (@V2.neg K (fieldNum K sq) n1)) = @V2.neg K (fieldNum K sq) n1
+    rw [inverse_rot2, rot_invRot2' sq pos12 _ hq]
+  · intro k hk
+    obtain ⟨h1, h2, h3, -⟩ := hc k hk
+    exact ⟨h3, cuboid_convex sq he1 a1 b1 _ ha1 hb1 h1, hxy _ h2⟩
+  · intro k hk
+    exact (hc k hk).2.2.2
+
 end C14
